@@ -3,7 +3,7 @@
 From Coq Require Import Reals Lra Psatz.
 From Coquelicot Require Import Coquelicot.
 From Interval Require Import Tactic.
-From EP Require Import lib.Base lib.Tactics gen.EosLibrary.
+From EP Require Import lib.Base lib.Tactics lib.Piecewise gen.EosLibrary.
 Open Scope R_scope.
 
 Ltac splits6 := split; [ | split; [ | split; [ | split; [ | split ] ] ] ].
@@ -62,4 +62,72 @@ Proof.
   intros gamma b rho e P Hg Hr Hb HZ. autounfold with epgen.
   assert (Hb' : 1 + - (b * rho) <> 0) by lra.
   splits6; try (field; nz); try dgoal.
+Qed.
+
+(* ---------- findings ---------- *)
+(* Carnahan-Starling de_drho, called (as every residual function does) with (rho, P): not the derivative of e *)
+Lemma eos_cs_de_drho_refuted_proof :
+  let gamma := 5 / 3 in let b := 1 in let rho := 1 / 2 in let P := 2 in
+  rho <> 0 /\ 1 - b * rho <> 0 /\
+  ~ is_derive (fun x => eos_cs_e x P gamma b) rho (eos_cs_de_drho rho P gamma b).
+Proof.
+  cbv zeta. split; [ lra | split; [ lra | ] ].
+  intro H.
+  eassert (D : is_derive (fun x => eos_cs_e x 2 (5 / 3) 1) (1 / 2) _).
+  { autounfold with epgen. auto_derive; [ repeat split; try exact I; apply Rgt_not_eq; interval | reflexivity ]. }
+  pose proof (is_derive_unique _ _ _ H) as E1. pose proof (is_derive_unique _ _ _ D) as E2.
+  rewrite E1 in E2. revert E2. autounfold with epgen.
+  first [ apply Rlt_not_eq; interval | apply Rgt_not_eq; interval ].
+Qed.
+
+(* ---------- Steinberg / Mie-Gruneisen ---------- *)
+Lemma eos_st_closures_proof : forall rd rp rg b c0 s1 s2 s3 rho e P,
+  rho <> 0 -> eos_st_gruneisen rho rd rp rg b c0 s1 s2 s3 <> 0 ->
+  eos_st_P rho (eos_st_e rho P rd rp rg b c0 s1 s2 s3) rd rp rg b c0 s1 s2 s3 = P /\
+  eos_st_e rho (eos_st_P rho e rd rp rg b c0 s1 s2 s3) rd rp rg b c0 s1 s2 s3 = e.
+Proof.
+  intros rd rp rg b c0 s1 s2 s3 rho e P Hr Hg.
+  unfold eos_st_P, eos_st_e. fold (eos_st_gruneisen rho rd rp rg b c0 s1 s2 s3).
+  fold (eos_st_P_inf rho rd rp rg b c0 s1 s2 s3). fold (eos_st_e_inf rho rd rp rg b c0 s1 s2 s3).
+  set (G := eos_st_gruneisen rho rd rp rg b c0 s1 s2 s3) in *.
+  set (PI_ := eos_st_P_inf rho rd rp rg b c0 s1 s2 s3). set (EI := eos_st_e_inf rho rd rp rg b c0 s1 s2 s3).
+  split; field; split; assumption.
+Qed.
+
+(* expansion side (rho < reference density): the coded dPinf_drho is the derivative of P_inf *)
+Lemma eos_st_dPinf_expansion_proof : forall rd rp rg b c0 s1 s2 s3 rho, 0 < rho -> rho < rd ->
+  is_derive (fun x => eos_st_P_inf x rd rp rg b c0 s1 s2 s3) rho (eos_st_dPinf_drho rho rd rp rg b c0 s1 s2 s3).
+Proof.
+  intros rd rp rg b c0 s1 s2 s3 rho H0 H1.
+  apply (is_derive_loc_region (fun y => 0 < y /\ y < rd) _
+           (fun y => rp + c0 ^ 2 * (1 - rd / y) * y)).
+  - apply locally_and; [ apply (locally_gt_id_const 0 rho H0) | apply (locally_lt_id_const rd rho H1) ].
+  - intros y [Hy0 Hy1]. unfold eos_st_P_inf. destruct (Rlt_dec y rd); [ reflexivity | lra ].
+  - unfold eos_st_dPinf_drho. destruct (Rlt_dec rho rd); [ | lra ].
+    auto_derive; [ lra | field; lra ].
+Qed.
+
+(* compression side (rho > reference density): the coded dPinf_drho is the derivative of P_inf
+   (holds since the fix of the quotient-rule sign; before it this lemma was a machine-checked refutation) *)
+Lemma eos_st_dPinf_compression_proof : forall rd rp rg b c0 s1 s2 s3 rho, 0 < rd -> rd < rho ->
+  1 - s1 * (1 - rd / rho) - s2 * (1 - rd / rho) ^ 2 - s3 * (1 - rd / rho) ^ 3 <> 0 ->
+  is_derive (fun x => eos_st_P_inf x rd rp rg b c0 s1 s2 s3) rho (eos_st_dPinf_drho rho rd rp rg b c0 s1 s2 s3).
+Proof.
+  intros rd rp rg b c0 s1 s2 s3 rho H0 H1 Hpoly.
+  apply (is_derive_loc_region (fun y => rd < y) _
+           (fun y => rp + c0 ^ 2 * (1 - rd / y) *
+                     (rd / (1 - s1 * (1 - rd / y) - s2 * (1 - rd / y) ^ 2 - s3 * (1 - rd / y) ^ 3) ^ 2))).
+  - apply locally_gt_id_const. exact H1.
+  - intros y Hy. unfold eos_st_P_inf. destruct (Rlt_dec y rd); [ lra | reflexivity ].
+  - unfold eos_st_dPinf_drho. destruct (Rlt_dec rho rd); [ lra | ].
+    set (q := 1 - s1 * (1 - rd / rho) - s2 * (1 - rd / rho) ^ 2 - s3 * (1 - rd / rho) ^ 3) in *.
+    auto_derive.
+    + repeat split; try exact I; try lra.
+      replace (1 + - (s1 * (1 + - (rd * / rho))) + - (s2 * ((1 + - (rd * / rho)) * ((1 + - (rd * / rho)) * 1))) +
+               - (s3 * ((1 + - (rd * / rho)) * ((1 + - (rd * / rho)) * ((1 + - (rd * / rho)) * 1))))) with q by (unfold q; field; lra).
+      apply Rmult_integral_contrapositive_currified; [ exact Hpoly | ]. apply Rmult_integral_contrapositive_currified; [ exact Hpoly | lra ].
+    + assert (Hq3 : ((rho - s1 * (rho - rd)) * rho - s2 * (rho - rd) ^ 2) * rho - s3 * (rho - rd) ^ 3 <> 0).
+      { replace (((rho - s1 * (rho - rd)) * rho - s2 * (rho - rd) ^ 2) * rho - s3 * (rho - rd) ^ 3) with (q * rho ^ 3) by (unfold q; field; lra).
+        apply Rmult_integral_contrapositive_currified; [ exact Hpoly | apply pow_nonzero; lra ]. }
+      unfold q. field. repeat split; try lra; try exact Hq3.
 Qed.
